@@ -403,6 +403,11 @@ func (s *Module) defineSyncStage() error {
 	}
 
 	if s.syncStage == headersSynced|blocksSynced|mptSynced {
+		if s.bc.BlockHeight() < s.syncPoint {
+			// Everything is fetched, but the node was stopped before the state jump.
+			s.checkSyncIsCompleted()
+			return nil
+		}
 		s.log.Info("state is in sync, starting regular blocks processing")
 		s.syncStage = inactive
 	}
